@@ -38,6 +38,54 @@ def classify(msg):
     return None
 
 
+MODEL_RULES = ("R6.", "R8.", "R11.", "R12b.")
+SHAPE_FILE = os.path.join(HERE, "shape_baseline.json")
+
+
+def vc_digest(vc):
+    """digest of the contract file and of the files it includes: a reference shape is only meaningful for the directives it was taken with"""
+    h = hashlib.sha256()
+    txt = open(vc, encoding="utf-8").read()
+    h.update(txt.encode())
+    for inc in sorted(set(re.findall(r"(?m)^//@include\s+(\S+)", txt))):
+        ip = os.path.join(os.path.dirname(vc), inc)
+        if os.path.exists(ip):
+            h.update(open(ip, encoding="utf-8").read().encode())
+            for inc2 in sorted(set(re.findall(r"(?m)^//@include\s+(\S+)", open(ip, encoding="utf-8").read()))):
+                ip2 = os.path.join(os.path.dirname(vc), inc2)
+                if os.path.exists(ip2): h.update(open(ip2, encoding="utf-8").read().encode())
+    return h.hexdigest()[:16]
+
+
+def shape_baseline(unit_name, vc):
+    try:
+        b = json.load(open(SHAPE_FILE)).get(unit_name)
+    except Exception:
+        return None
+    if not b or b.get("vc") != vc_digest(vc):
+        return None
+    return b.get("functions", {})
+
+
+def lost_models(ref, now):
+    """modelling substitutions that applied less often than on the reference tree"""
+    if not ref:
+        return []
+    now = now or {}
+    judged = ["`%s`" % frm for frm in extract.REMOVAL_IS_JUDGED]
+    out = []
+    for k, n in sorted(ref.items()):
+        if not (k.startswith(MODEL_RULES) and now.get(k, 0) < n) or any(j in k for j in judged):
+            continue
+        # only substitutions whose source construct Verus would ACCEPT un-modelled are a false-alarm risk: comparisons through a PartialEq impl without an equality spec come
+        # out as "any bool".  Other constructs left without their rule (std calls without a specification, iterator chains) make Verus refuse the unit, which is INFRA already.
+        m = re.match(r"R\d+b?\.\w[\w-]* `(.*?)` =>", k)
+        pattern = m.group(1) if m else k
+        if re.search(r"(==|!=)", pattern):
+            out.append("%s: %d -> %d" % (k[:90], n, now.get(k, 0)))
+    return out
+
+
 def labels_of(label):
     """a label comment may carry several ids: `C01.x, C03.y`"""
     if not label:
@@ -200,6 +248,33 @@ def _run_unit(unit_name, rlimit=None, extra_args=()):
             rec["detail"] = "%s: %s" % (kind, norm)
             failures.append(rec)
 
+    # ---- what is NOT a violation although Verus reports an error inside a function under contract (false-alarm guards):
+    # (a) a failed `assert` of an inserted proof block that carries no label is a proof HINT that no longer goes through (Verus assumes it afterwards, so it hides whether the
+    #     contract clause it served still holds): undecided.  (Ghost assertions that state a fact of the property carry a label and are obligations like any clause.)
+    # (b) a function whose extracted text still contains a text-formatting macro (format!, format_args!, write!) has code left that no rule gave a meaning to - Verus accepts
+    #     these as "any string" - so a clause about the text it builds cannot be attributed to the property: undecided.  (A modelled construct that was merely REMOVED - a sleep,
+    #     a call - leaves nothing unmodelled behind and is judged normally.)
+    unmodelled = {f["path"]: f["unmodelled"] for f in u.functions if f.get("unmodelled")}
+    # (c) a function in which a substitution that models a COMPARISON (`==` / `!=` in its pattern) applied less often than on the reference tree (vk/shape_baseline.json, taken
+    #     on the unchanged tree; ignored when the .vc file changed since) may have the comparison left in another spelling (a renamed local defeats `value == token`), and Verus
+    #     takes `==` through a PartialEq impl without an equality spec as "any bool": what fails in it is undecided.  Other substitutions are not guarded this way: when their
+    #     construct is left un-modelled Verus refuses the unit (INFRA), and when it was simply removed (a sort, a sleep, a call) that is a change of the code to be judged.
+    shapes = getattr(u.counts, "per_owner", {})
+    base = shape_baseline(unit_name, vc)
+    kept = []
+    for f in failures:
+        fn = f.get("fn")
+        if f.get("kind") == "assertion" and f.get("origin_kind") == "ghost" and f.get("label") == "proof-step":
+            infra.append("proof hint no longer goes through in %s (%s): undecided, not a violation" % (fn, (f.get("detail") or "")[:120])); continue
+        lost = lost_models(base.get(fn), shapes.get(fn)) if base is not None else []
+        if lost:
+            infra.append("%s: %s fails, but a modelling substitution applied less often than on the reference tree (%s): undecided, not a violation" % (
+                fn, f.get("obligation"), "; ".join(lost)[:300])); continue
+        if fn in unmodelled:
+            infra.append("%s: %s fails, but the extracted function still contains unmodelled text formatting (%s!): undecided, not a violation" % (
+                fn, f.get("obligation"), "!, ".join(unmodelled[fn]))); continue
+        kept.append(f)
+    failures = kept
     # canaries: every fn named canary_* must have failed
     canaries = sorted(set(re.findall(r"(?m)^\s*(?:pub\s+)?proof fn (canary_\w+)", text)))
     compile_failed = any(d.get("level") == "error" and d.get("code") for d in diags) or (summary or {}).get("verification-results", {}).get("encountered-vir-error")
@@ -224,7 +299,7 @@ def _run_unit(unit_name, rlimit=None, extra_args=()):
             if not any(short.endswith(ff.split("@")[-1]) or (ff and ff.split("::")[-1] == short.split("::")[-1]) for ff in failed_fns if ff):
                 infra.append("function %s failed without a mapped diagnostic (rlimit/timeout?)" % fname)
     return dict(unit=unit_name, obligations=obligations, failures=failures, canaries=canary_ok, infra=infra,
-                functions=u.functions, counts=dict(u.counts), dropped=u.dropped, diffs=u.diffs, trusted=trusted,
+                functions=u.functions, counts=dict(u.counts), shapes=getattr(u.counts, "per_owner", {}), dropped=u.dropped, diffs=u.diffs, trusted=trusted,
                 cmd="cd %s && %s" % (BUILD, " ".join(cmd)), wall_s=wall, verus=vr, times=times, gen_path=out,
                 verus_version=(summary or {}).get("verus", {}).get("version"),
                 gen_sha=hashlib.sha256(text.encode()).hexdigest()[:16], raw_stderr=p.stderr)
